@@ -48,6 +48,12 @@ def run(rep, ctx):
     rep.run_rule("C05.R6", "a simple Quantity stores a unit only after CheckCategoryUnit accepted it for the category", r6_quantity_init, ctx)
     rep.run_rule("C05.R8", "a derived Quantity is created only after every (category, unit) entry was checked against the category's quantity type", r8_create_derived, ctx)
     rep.run_rule("C05.R7", "failed or successful operations write nothing: registry-pure entry points, operands' composing maps never reached by a sink", r7_change_nothing, ctx)
+    from . import c11
+    rep.rule("C05.R10", "a value is re-expressed in the unit of the quantity it is labelled with (a unit of another quantity type is rejected by that conversion; shared with C11.R3)")
+    try:
+        borrow(rep, c11.r3_index, ctx, "C11.R3", "C05.R10")
+    except AnalysisError as e:
+        rep.error("C05.R10", str(e))
     rep.not_decided += [
         "false rejection of dimension-compatible operands written with different symbols (m.m vs m2)",
         "units whose table row carries a wrong quantity type (table content: C06/C14)",
